@@ -12,6 +12,7 @@ pub mod c14;
 pub mod c15;
 pub mod c17;
 pub mod c18;
+pub mod c19;
 pub mod c2122;
 pub mod c25;
 pub mod c26;
@@ -27,7 +28,7 @@ pub mod epprops;
 pub mod relayreg;
 
 pub fn all() -> Vec<Arc<dyn Property>> {
-    vec![Arc::new(c01::C01), Arc::new(c03::C03), Arc::new(c040506::C04), Arc::new(c040506::C05), Arc::new(c040506::C06), Arc::new(c0708::C07), Arc::new(c0708::C08), Arc::new(c09::C09), Arc::new(c14::C14), Arc::new(c15::C15), Arc::new(c17::C17), Arc::new(c18::C18), Arc::new(c2122::C21), Arc::new(c2122::C22), Arc::new(c25::C25), Arc::new(c26::C26), Arc::new(c28::C28), Arc::new(c29::C29), Arc::new(c30::C30), Arc::new(c33::C33), Arc::new(c34::C34), Arc::new(c35::C35), Arc::new(dnssrv::C36), Arc::new(dnssrv::C37), Arc::new(dnssrv::C38), Arc::new(dnssrv::C39), Arc::new(c43::C43), Arc::new(epprops::C40), Arc::new(epprops::C41), Arc::new(epprops::C42)]
+    vec![Arc::new(c01::C01), Arc::new(c03::C03), Arc::new(c040506::C04), Arc::new(c040506::C05), Arc::new(c040506::C06), Arc::new(c0708::C07), Arc::new(c0708::C08), Arc::new(c09::C09), Arc::new(c14::C14), Arc::new(c15::C15), Arc::new(c17::C17), Arc::new(c18::C18), Arc::new(c19::C19), Arc::new(c2122::C21), Arc::new(c2122::C22), Arc::new(c25::C25), Arc::new(c26::C26), Arc::new(c28::C28), Arc::new(c29::C29), Arc::new(c30::C30), Arc::new(c33::C33), Arc::new(c34::C34), Arc::new(c35::C35), Arc::new(dnssrv::C36), Arc::new(dnssrv::C37), Arc::new(dnssrv::C38), Arc::new(dnssrv::C39), Arc::new(c43::C43), Arc::new(epprops::C40), Arc::new(epprops::C41), Arc::new(epprops::C42)]
 }
 
 pub fn by_id(id: &str) -> Option<Arc<dyn Property>> {
